@@ -1512,13 +1512,34 @@ impl<'a, 'b, W: Write> Serializer for &'a mut YamlSerializer<'b, W> {
         variant: &'static str,
         _len: usize,
     ) -> Result<Self::SerializeTupleVariant> {
+        // Positioned like a struct variant (see `serialize_struct_variant`).
+        if self.pending_space_after_colon {
+            // Value position after a map key: start the variant mapping on the next line.
+            self.pending_space_after_colon = false;
+            self.pending_inline_map = false;
+            self.newline()?;
+            let base = self.current_map_depth.unwrap_or(self.depth) + 1;
+            self.write_indent(base)?;
+            self.write_plain_or_quoted(variant)?;
+            self.out.write_str(":\n")?;
+            self.at_line_start = true;
+            return Ok(TupleVariantSer {
+                ser: self,
+                depth: base + 1,
+            });
+        }
         if self.at_line_start {
             self.write_indent(self.depth)?;
         }
         self.write_plain_or_quoted(variant)?;
         self.out.write_str(":\n")?;
         self.at_line_start = true;
-        let depth_next = self.depth + 1;
+        let mut depth_next = self.depth + 1;
+        // After a list dash: one level for the element, one for the variant mapping.
+        if let Some(d) = self.after_dash_depth.take() {
+            depth_next = d + 2;
+            self.pending_inline_map = false;
+        }
         Ok(TupleVariantSer {
             ser: self,
             depth: depth_next,
@@ -2047,6 +2068,10 @@ impl<'a, 'b, W: Write> SerializeTupleVariant for TupleVariantSer<'a, 'b, W> {
         self.ser.write_indent(self.depth)?;
         self.ser.out.write_str("- ")?;
         self.ser.at_line_start = false;
+        // Same hints as for a sequence element: nested collections lay themselves out
+        // relative to this dash.
+        self.ser.after_dash_depth = Some(self.depth);
+        self.ser.pending_inline_map = true;
         value.serialize(&mut *self.ser)
     }
     fn end(self) -> Result<()> {
